@@ -184,6 +184,7 @@ def run(chk):
     # update_crc32(crc, b) = (crc >> 8) ^ T32[0][b ^ crc as u8]
     b = body("crc::update_crc32")
     crc32v = gf2.var_bits("crc", 32)
+    upd32_ok = [False]
 
     def upd32(bytebits):
         idx = gf2.resize(gf2.xor(gf2.resize(crc32v, 8), bytebits), 64)
@@ -195,6 +196,7 @@ def run(chk):
         if rets:
             if check_nf("update_crc32", "value", rets[0], upd32(gf2.var_bits("b", 8)), gf2.Normalizer(widths(b), tables)):
                 chk.sample("update_crc32 = " + show(rets[0]))
+                upd32_ok[0] = True
 
     def fold_loop(fn, b, acc, init_pred, step_pred, src_param, ret_pred):
         """acc has exactly two definitions: init (outside the loop) and step (inside the single loop);
@@ -267,6 +269,9 @@ def run(chk):
 
         def step_slow(e, eb):
             nz = gf2.Normalizer(widths(b, (RS[0],) if RS[0] is not None else ()), tables, elem_input({"iter"}))
+            if upd32_ok[0]:
+                # the one-byte step may be written as a call of update_crc32, whose own form was just checked
+                nz.helpers["crc::update_crc32"] = ((32, 8), lambda c_, b_: gf2.xor(gf2.shr(c_, 8), gf2.lookup(T32, 0, gf2.resize(gf2.xor(gf2.resize(c_, 8), b_), 64), 32)))
             check_nf("update_slow", "loop update", e, upd32(gf2.var_bits("elem", 8)), nz)
         fold_loop("update_slow", b, RS[1],
                   lambda e: e[0] == "un" and e[1] == "Not" and e[2][0] == "var" and 1 <= e[2][1] <= b.argc and e[2][2] == RS[3],
@@ -289,6 +294,16 @@ def run(chk):
             chk.obligation(ok)
             if not ok:
                 mismatch("get_crc32", "initial value must be 0xFFFF_FFFF", got=str([show(e) for e in inits]))
+            # alternative window form: `for chunk in buf.chunks_exact(16)` ... `chunks.remainder()` (std's ChunksExact yields the
+            # consecutive 16-byte windows of the whole input in order and keeps what is left, fewer than 16 bytes)
+            chunk_form = None
+            for cbi, ct in b.calls():
+                if (ct["callee"].get("resolved") or "") == "core::slice::<impl [T]>::chunks_exact" and cbi not in loop:
+                    a0, a1 = eb.operand(ct["args"][0]), eb.operand(ct["args"][1])
+                    while a0[0] in ("ref", "deref"):
+                        a0 = a0[1]
+                    if a0[0] == "var" and 1 <= a0[1] <= b.argc and a0[2] == BUFP and a1 == ("const", 16):
+                        chunk_form = ct["dest"]["l"]
             # buf is shadowed: the loop variable is the local (not the argument) named buf
             bufl = list(R32[4])
             bds = []
@@ -297,7 +312,34 @@ def run(chk):
                     bds.append((bi_, eb.call_expr(b.blocks[bi_]["term"]) if k_ == "term" else eb.rvalue(b.blocks[bi_]["stmts"][k_]["rv"])))
             binit = [e for bi, e in bds if bi not in loop]
             bstep = [e for bi, e in bds if bi in loop]
-            ok = len(bufl) == 1 and len(binit) == 1 and binit[0][0] == "var" and binit[0][1] <= b.argc and binit[0][2] == BUFP
+            def chunk_elem(base):
+                """the slice yielded by the chunk iterator in this iteration"""
+                while base[0] in ("ref", "deref"):
+                    base = base[1]
+                if base[0] == "field" and base[2] == "0" and base[1][0] == "downcast" and base[1][2] == "Some":
+                    c = base[1][1]
+                    if c[0] == "call" and c[1].endswith("as std::iter::Iterator>::next") and c[2]:
+                        it = c[2][0]
+                        while it[0] in ("ref", "deref"):
+                            it = it[1]
+                        if it[0] == "var":
+                            ids = defs_of(b, eb, it[2])
+                            if len(ids) == 1 and ids[0][0] not in loop:
+                                src = ids[0][1]
+                                while src[0] in ("ref", "deref") or (src[0] == "call" and src[1].endswith("IntoIterator>::into_iter")):
+                                    src = src[2][0] if src[0] == "call" else src[1]
+                                return src[0] == "var" and src[1] == chunk_form
+                return False
+            if chunk_form is not None and not bufl:
+                nexts = [i for i, t in b.calls() if i in loop and (t["callee"].get("resolved") or "").endswith("as std::iter::Iterator>::next")]
+                exits_ = [(x, s_) for x in loop for s_ in b.succ[x] if s_ not in loop and b.blocks[s_]["term"]["k"] != "unreachable"]
+                ok = len(nexts) == 1 and bool(exits_) and len({x for x, _ in exits_}) == 1 and b.blocks[exits_[0][0]]["term"]["k"] == "switch" \
+                    and show(eb.operand(b.blocks[exits_[0][0]]["term"]["discr"])).startswith("discr(next(")
+                chk.obligation(ok)
+                if not ok:
+                    mismatch("get_crc32", "the chunk loop must take one chunk per iteration and run until the iterator is exhausted", got=str(exits_))
+                binit = bstep = None
+            ok = binit is None or (len(bufl) == 1 and len(binit) == 1 and binit[0][0] == "var" and binit[0][1] <= b.argc and binit[0][2] == BUFP)
             chk.obligation(ok)
             if not ok:
                 mismatch("get_crc32", "window must start at the whole input", got=str([show(e) for e in binit]))
@@ -313,14 +355,14 @@ def run(chk):
                     base = base[1]
                 return base[0] == "var" and base[1] in bufl and rng[0] == "agg" \
                     and rng[1].startswith("adt:std::ops::RangeFrom") and rng[2] == [("const", 16)]
-            ok = len(bstep) == 1 and is_adv(bstep[0])
+            ok = bstep is None or (len(bstep) == 1 and is_adv(bstep[0]))
             chk.obligation(ok)
             if not ok:
                 mismatch("get_crc32", "window must advance by exactly 16 bytes (buf = &buf[16..])", got=str([show(e) for e in bstep]))
             # guard: the only loop exit is the false branch of len(buf) >= 16 at the head
             exits = [(x, s) for x in loop for s in b.succ[x] if s not in loop]
-            ok = False
-            if len(exits) == 1:
+            ok = binit is None
+            if len(exits) == 1 and not ok:
                 t = b.blocks[exits[0][0]]["term"]
                 if t["k"] == "switch":
                     g = eb.operand(t["discr"])
@@ -366,6 +408,8 @@ def run(chk):
                         base = base[1]
                     if base[0] == "var" and base[1] in bufl:
                         return ("buf%d" % x[2][1], 8)
+                    if binit is None and chunk_elem(x[1]):
+                        return ("buf%d" % x[2][1], 8)
                 return None
             if len(steps) == 1:
                 accs = [R32[0]] if R32[0] is not None else []
@@ -383,8 +427,11 @@ def run(chk):
                 a0, a1 = e[2]
                 while a1[0] in ("ref", "deref"):
                     a1 = a1[1]
-                return a0[0] == "un" and a0[1] == "Not" and a0[2][0] == "var" and a0[2][1] == R32[0] \
-                    and a1[0] == "var" and a1[1] in bufl
+                if binit is None:
+                    rest = a1[0] == "call" and a1[1].endswith("ChunksExact::<'a, T>::remainder") and a1[2] and a1[2][0] == ("ref", ("var", chunk_form, b.lname(chunk_form)))
+                else:
+                    rest = a1[0] == "var" and a1[1] in bufl
+                return a0[0] == "un" and a0[1] == "Not" and a0[2][0] == "var" and a0[2][1] == R32[0] and rest
             ok = len(rets) == 1 and is_tail(rets[0])
             chk.obligation(ok)
             if not ok:
